@@ -5,8 +5,10 @@ import (
 	"fmt"
 	"io"
 	"os"
+	"reflect"
 	"strconv"
 	"strings"
+	"sync"
 	"sync/atomic"
 	"time"
 
@@ -53,6 +55,26 @@ func encMItems(xs []mItem) string {
 		o = append(o, x.enc())
 	}
 	return strings.Join(o, " ")
+}
+
+// refTable: the style and region objects each payload-carrying cue was built with (by payload); a cue, or a piece cut
+// from it, must still refer to these very objects after an operation — not to another definition of the same identifier
+type refPair struct {
+	st *astisub.Style
+	rg *astisub.Region
+}
+
+// one table per built list, found through the list's id table (lists are built concurrently by conc.batch)
+var refTables sync.Map
+
+func refsOf(ids map[*astisub.Item]int) map[int]refPair {
+	k := reflect.ValueOf(ids).Pointer()
+	if t, ok := refTables.Load(k); ok {
+		return t.(map[int]refPair)
+	}
+	t := map[int]refPair{}
+	refTables.Store(k, t)
+	return t
 }
 
 // build turns an mItem into a real *astisub.Item whose every optional part carries the payload tag
@@ -112,6 +134,9 @@ func observe(items []*astisub.Item, ids map[*astisub.Item]int) []mItem {
 			continue
 		}
 		m := mItem{uid: ids[it], start: int64(it.StartAt), end: int64(it.EndAt), pay: payOf(it)}
+		if ref, ok := refsOf(ids)[m.pay]; ok && m.pay != 0 && m.pay < 999990 && (it.Style != ref.st || it.Region != ref.rg) {
+			m.pay = 999997 // same identifiers, other objects
+		}
 		for li, l := range it.Lines {
 			var rs []string
 			for k, r := range l.Items {
@@ -138,8 +163,30 @@ func buildSubs(xs []mItem, spare int) (*astisub.Subtitles, map[*astisub.Item]int
 		it := x.build()
 		ids[it] = x.uid
 		s.Items = append(s.Items, it)
+		if x.pay != 0 {
+			refsOf(ids)[x.pay] = refPair{it.Style, it.Region}
+		}
 	}
 	if spare%2 == 1 {
+		// the list declares, under the identifiers its cues use, definitions that are other objects than the ones the
+		// cues refer to (what a merge leaves behind when both lists declared the identifier); and cues without payload
+		// whose lines are a prefix of another's share its backing array (roll-up captions built from one block)
+		for _, it := range s.Items {
+			if it.Style != nil {
+				s.Styles[it.Style.ID] = &astisub.Style{ID: it.Style.ID, InlineStyle: &astisub.StyleAttributes{SRTBold: true}}
+			}
+			if it.Region != nil {
+				s.Regions[it.Region.ID] = &astisub.Region{ID: it.Region.ID, InlineStyle: &astisub.StyleAttributes{SRTBold: true}}
+			}
+		}
+		for i, a := range s.Items {
+			for j, b := range s.Items {
+				if i != j && payOf(a) == 0 && payOf(b) == 0 && len(a.Lines) > 0 && len(a.Lines) < len(b.Lines) && reflect.DeepEqual(a.Lines, b.Lines[:len(a.Lines)]) {
+					a.Lines = b.Lines[:len(a.Lines)]
+					break
+				}
+			}
+		}
 		// metadata of the formats the list may have been read from: the operations on cues do not look at it
 		s.Metadata = &astisub.Metadata{Framerate: 30, Title: "t", Language: astisub.LanguageFrench, STLTimecodeStartOfProgramme: 10 * time.Hour,
 			WebVTTTimestampMap: &astisub.WebVTTTimestampMap{Local: 1500 * time.Millisecond, MpegTS: 900000}}
